@@ -14,6 +14,8 @@ import Proofs.Lemmas.DetectionGeo
 import Proofs.C07
 import SoundeventModel.DetectionTags
 import Proofs.C19
+import SoundeventModel.DetectionHistory
+import Proofs.Lemmas.History
 namespace SE.Proofs.C08
 open SE SE.Metrics SE.Detection
 
@@ -917,5 +919,142 @@ example : (evalClipT id vocab3 [⟨0, true, pred3⟩] [⟨1, true, [⟨gbif, "Tu
     (fun es => es.map (fun e => (e.src, e.tgt, e.aff, e.score))) = some [(some 0, some 0, 1, 7/10)] := by decide +kernel
 
 end Tags
+
+/-! ### calls and histories (follow-up 3)
+
+`Detection.Call` is one call of the library in a process — an evaluation or a direct call of the matcher —
+as content; `callModel` is its answer.  A process makes many calls on objects that were used before. -/
+section Histories
+open SE.Encoding SE.History
+
+/-- **Histories.**  Whatever state an implementation keeps between calls (`σ` is arbitrary: class-level
+    tables, module-level caches, values memoised on argument objects), it returns the model's answer at
+    every step of every sequence of calls in one process iff no state reachable by some sequence of calls
+    changes the answer of any single call.  The history operations of the check run such sequences; every
+    step is judged by `callModel` alone. -/
+theorem C08_history {σ : Type} (tb0 fb0 : Rat) (step : σ → Call → σ × Answer) (s0 : σ) :
+    HistoryFree step s0 (callModel tb0 fb0) ↔
+      ∀ calls : List Call, runS step s0 calls = calls.map (callModel tb0 fb0) :=
+  historyFree_iff step s0 (callModel tb0 fb0)
+
+/-- the call layer is the three layers below it: the sound events handed to the geometry layer carry the
+    class indices of `TPred.enc` / `TAnn.enc` (C08_tags_bridge: the encodings of `evaluation/encoding.py` for the
+    vocabulary of *this* call) and "has a geometry" is read off the geometry -/
+theorem C08_evaluate_bridge (vocab : List Tag) (tb fb : Rat) (preds : List (Nat × TGeoClip))
+    (anns : List (Nat × List TGAnn)) :
+    evaluateT vocab tb fb preds anns =
+      soundEventDetectionGeo vocab.length tb fb
+        (preds.map (fun c => (c.1, { events := c.2.events.map (fun x =>
+            (TPred.enc id vocab { x.1 with hasGeom := x.2.isSome }, x.2)), pairs := c.2.pairs, measured := c.2.measured })))
+        (anns.map (fun a => (a.1, a.2.map (fun x => (TAnn.enc vocab { x.1 with hasGeom := x.2.isSome }, x.2))))) := by
+  rfl
+
+/-- an evaluation depends on the class assignment only through the tags the call itself carries: two
+    assignments that agree on every predicted and every annotated tag of the call give the same evaluation.
+    (So a table that also knows tags of *earlier* vocabularies is wrong exactly when such a tag occurs in the
+    data of a later call: `C08_shared_class_table_not_history_free`.) -/
+theorem C08_evaluate_congr (enc enc' : Tag → Option Nat) (C : Nat) (tb fb : Rat) (preds : List (Nat × TGeoClip))
+    (anns : List (Nat × List TGAnn))
+    (hp : ∀ c ∈ preds, ∀ x ∈ c.2.events, ∀ p ∈ x.1.tags, enc p.tag = enc' p.tag)
+    (ha : ∀ a ∈ anns, ∀ x ∈ a.2, ∀ t ∈ x.1.tags, enc t = enc' t) :
+    evaluateWith enc C tb fb preds anns = evaluateWith enc' C tb fb preds anns := by
+  have h1 : preds.map (encClipWith enc) = preds.map (encClipWith enc') := by
+    apply List.map_congr_left
+    intro c hc
+    have : c.2.events.map (encPredWith enc) = c.2.events.map (encPredWith enc') := by
+      apply List.map_congr_left
+      intro x hx
+      have : x.1.tags.map (fun p => (enc p.tag, p.score)) = x.1.tags.map (fun p => (enc' p.tag, p.score)) := by
+        apply List.map_congr_left
+        intro p hpm
+        rw [hp c hc x hx p hpm]
+      simp only [encPredWith, this]
+    simp only [encClipWith, this]
+  have h2 : anns.map (fun a => (a.1, a.2.map (encAnnWith enc))) = anns.map (fun a => (a.1, a.2.map (encAnnWith enc'))) := by
+    apply List.map_congr_left
+    intro a ham
+    have : a.2.map (encAnnWith enc) = a.2.map (encAnnWith enc') := by
+      apply List.map_congr_left
+      intro x hx
+      have : x.1.tags.map enc = x.1.tags.map enc' := by
+        apply List.map_congr_left
+        intro t ht
+        exact ha a ham x hx t ht
+      simp only [encAnnWith, this]
+    rw [this]
+  simp only [evaluateWith, h1, h2]
+
+private def tA : Tag := ⟨termFromKey "species", "Myotis"⟩
+private def tB : Tag := ⟨termFromKey "species", "Nyctalus"⟩
+private def boxA : Geom := .boundingBox 1 1000 2 2000
+private def boxB : Geom := .boundingBox 5 1000 6 2000
+private def hist1 : List Call :=
+  [.evaluate [tA, tB] [] [],
+   .evaluate [tB] [(0, { events := [(⟨0, true, [⟨tB, 1/2⟩, ⟨tA, 1/4⟩]⟩, some boxA), (⟨1, true, [⟨tB, 1/2⟩]⟩, some boxB)],
+                         pairs := [(0, 0), (1, 1)], measured := [] })]
+     [(0, [(⟨2, true, [tA]⟩, some boxA), (⟨3, true, [tB]⟩, some boxB)])]]
+
+/-- the class-level dictionary shared by all encoders (seeded C19-7 / C09-7) is not history free: after an
+    evaluation with the vocabulary {A, B}, an evaluation with the vocabulary {B} scores a pair annotated `A`
+    with the probability of class 0 (1/4 after the stale write) instead of what the prediction leaves for
+    "none of the classes" (1 − 1/2): clip score 3/8 instead of 1/2 -/
+theorem C08_shared_class_table_not_history_free :
+    ¬ HistoryFree (sharedTableStep (1/100) 100) [] (callModel (1/100) 100) := by
+  intro h
+  have := (C08_history (1/100) 100 (sharedTableStep (1/100) 100) []).mp h hist1
+  revert this
+  decide +kernel
+
+private def clipScoresOf : Answer → List (Option Rat)
+  | .evaluation (.ok e) => e.clips.map (·.score)
+  | .evaluation (.error _) => []
+  | .matches _ => []
+
+example : (runS (sharedTableStep (1/100) 100) [] hist1).map clipScoresOf = [[], [some (3/8)]] := by decide +kernel
+example : (hist1.map (callModel (1/100) 100)).map clipScoresOf = [[], [some (1/2)]] := by decide +kernel
+
+private def hist2 : List Call :=
+  [.matchG (1/2) 100 [.timeStamp 1] [.timeStamp (13/10)] [(0, 0)] [],
+   .evaluate [tA] [(0, { events := [(⟨0, true, [⟨tA, 1/2⟩]⟩, some (.timeStamp 1))], pairs := [(0, 0)], measured := [] })]
+     [(0, [(⟨1, true, [tA]⟩, some (.timeStamp (13/10)))])]]
+
+/-- a buffered-geometry memo that ignores the buffers (seeded C07-7) is not history free: after
+    `match_geometries(…, time_buffer=0.5)` on two time stamps 0.3 s apart, an evaluation pairs them although they
+    do not overlap under the 10 ms buffer `evaluate_clip` matches with -/
+theorem C08_buffer_memo_not_history_free :
+    ¬ HistoryFree (stickyBufferStep (1/100) 100) none (callModel (1/100) 100) := by
+  intro h
+  have := (C08_history (1/100) 100 (stickyBufferStep (1/100) 100) none).mp h hist2
+  revert this
+  decide +kernel
+
+/-- **Positional calls.**  A positional call binds the k-th argument to the k-th declared parameter: with the
+    parameter order of `Detection.signatures` (re-extracted from the code on every run, obligation
+    `signatures`) a positional call *is* the keyword call the model describes. -/
+theorem C08_positional_binding {α : Type} (params : List String) (args : List α) (h : params.Nodup)
+    (k : Nat) (hk : k < params.length) (hk' : k < args.length) :
+    argOf (bindPositional params args) params[k] = some args[k] := by
+  induction params generalizing args k with
+  | nil => simp at hk
+  | cons p ps ih =>
+    cases args with
+    | nil => simp at hk'
+    | cons a as =>
+      cases k with
+      | zero => simp [argOf, bindPositional, List.lookup_cons]
+      | succ k =>
+        have hk2 : k < ps.length := by simpa using hk
+        have hne : ps[k] ≠ p := by
+          intro e
+          exact (List.nodup_cons.mp h).1 (e ▸ List.getElem_mem hk2)
+        have hb : (ps[k] == p) = false := by simpa using hne
+        have := ih as (List.nodup_cons.mp h).2 k hk2 (by simpa using hk')
+        simpa [argOf, bindPositional, List.lookup_cons, hb] using this
+
+example : ∀ s ∈ signatures, s.2.Nodup := by decide
+example : argOf (bindPositional ["clip_annotations", "clip_predictions", "encoder"] ["A", "P", "E"]) "clip_predictions" = some "P" := by
+  decide
+
+end Histories
 
 end SE.Proofs.C08
